@@ -1115,7 +1115,16 @@ impl C06 {
         // ---- lift the function
         let endian = if big_endian_data(arch) { Endian::Big } else { Endian::Little };
         let mut memory = Memory::new(endian);
-        memory.set_memory(p.base, p.bytes.clone(), MemoryPermissions::READ | MemoryPermissions::EXECUTE);
+        if p.bytes.len() >= 2 && rng.chance(1, 3) {
+            // the image as two adjacent sections (an instruction, or a translation window, may straddle them)
+            let cut = 1 + rng.usize(p.bytes.len() - 1);
+            let rx = MemoryPermissions::READ | MemoryPermissions::EXECUTE;
+            memory.set_memory(p.base, p.bytes[..cut].to_vec(), rx);
+            memory.set_memory(p.base + cut as u64, p.bytes[cut..].to_vec(), if rng.bool() { rx } else { MemoryPermissions::ALL });
+            ctx.count("images_in_two_sections");
+        } else {
+            memory.set_memory(p.base, p.bytes.clone(), MemoryPermissions::READ | MemoryPermissions::EXECUTE);
+        }
         let mut options = Options::new();
         if p.overlap {
             options.set_unsupported_are_intrinsics(true);
